@@ -198,6 +198,11 @@ func (up4 *UP4) AddSliceInfo(sliceInfo *SliceInfo) error {
 		sliceBurstBytes = sliceInfo.dlBurstBytes
 	}
 
+	if sliceBurstBytes > math.MaxInt64 {
+		// P4Runtime carries the burst size as int64
+		sliceBurstBytes = math.MaxInt64
+	}
+
 	meterCellId, err := GetSliceTCMeterIndex(up4.conf.SliceID, up4.conf.DefaultTC)
 	if err != nil {
 		return err
